@@ -1,5 +1,5 @@
 #!/bin/sh
 # seed_regress.sh [glob]: every seeded variant must be reported by the check of its own property (8 in parallel).
 cd "$(dirname "$0")/.."
-ls -d ${1:-seeded/*} | xargs -P 8 -I{} sh -c 'n=$(basename {}); p=${n%%-*}; out=$(QV_LINES=3 tools/qv.sh {} $p 2>&1 | grep "violations="); case "$out" in *"violations=0"*|"") echo "MISSED $n :: $out";; *) echo "caught $n";; esac' | sort > /root/scratch/seed_regress.txt
+ls -d ${1:-seeded/*} | xargs -P 8 -I{} sh -c 'n=$(basename {}); p=${n%%-*}; out=$(QV_LINES=400 tools/qv.sh {} $p 2>&1 | grep "violations="); case "$out" in *"violations=0"*|"") echo "MISSED $n :: $out";; *) echo "caught $n";; esac' | sort > /root/scratch/seed_regress.txt
 grep -c '^caught' /root/scratch/seed_regress.txt; grep '^MISSED' /root/scratch/seed_regress.txt
